@@ -74,7 +74,7 @@ mod parser {
     use crate::sass::SassString;
     use nom::Parser as _;
     use nom::bytes::complete::tag;
-    use nom::character::char;
+    use nom::character::complete::char;
     use nom::combinator::{map, opt};
     use nom::multi::{many_till, separated_list0};
     use nom::sequence::{delimited, preceded, terminated};
